@@ -233,10 +233,27 @@ def h_names(ctx, kind, names):
     ctx.true('caller-supplied condition dictionaries unmodified', _same(before, kw))
 
 
+def h_array_T(ctx, kind):
+    """an array of temperatures gives, element by element, what each temperature gives alone"""
+    rxn, Rs, Ps, Ts = _build(ctx, kind, 2, 1, 1)
+    P = ctx.real('P', 1e-4, 1e3)
+    T = [ctx.real('T%d' % i, 50, 5000) for i in range(2)]
+    Tarr = np_array(ctx, T)
+    for q in ('HoRT', 'GoRT', 'SoR'):
+        for call, kw in (('get_%s_state' % q, dict(state='reactants')), ('get_delta_%s' % q, {}), ('get_delta_%s' % q, dict(act=True, rev=True))):
+            got = getattr(rxn, call)(T=Tarr, P=P, **kw)
+            ok = hasattr(got, '__len__') and len(got) == 2
+            ctx.true('%s%s: one value per temperature' % (call, kw or ''), ok)
+            if ok:
+                for i in range(2):
+                    ctx.eq('%s%s[%d] = value at that temperature alone' % (call, kw or '', i), got[i], getattr(rxn, call)(T=T[i], P=P, **kw))
+
+
 def groups(tier):
     th = tier == 'thorough'
     g = []
     for kind in ('Reaction', 'ChemkinReaction', 'SurfaceReaction'):
+        g.append(dict(name='%s/array-of-temperatures' % kind, harness=h_array_T, params=dict(kind=kind)))
         for names in TRICKY:
             if kind != 'Reaction' and not th and names is not TRICKY[0]:
                 continue
